@@ -36,6 +36,29 @@ func appCases(args []string) {
 			n = 40
 			holds = []int{0, -1, -2, -3, 1, 2, 3, 5}
 		}
+		// the kind of the LAST message varies: MSM with the multiple-message flag set / clear, 1005, other types, junk, partial frame
+		lastKinds := 6
+		for k := 0; k < lastKinds; k++ {
+			head := wellStructured(rng, 2+rng.Intn(4), 60, k)
+			var last []byte
+			switch k {
+			case 0, 1:
+				sp := gen.RandomMSM(rng, gen.MSMTypes[rng.Intn(14)], 7, 0, uint64(1-k), 0) // k=0: more messages follow
+				last = tr.Frame(sp.Encode())
+			case 2:
+				last = gen.Cat(tr.Frame(gen.RandomMSM(rng, 1077, 7, 0, 1, 0).Encode()), tr.Frame(gen.RandomMSM(rng, 1087, 7, 0, 1, 0).Encode()))
+			case 3:
+				last = gen.Frame(rng, 1230, 8, 0)
+			case 4:
+				last = gen.Junk(rng, 12, 1)
+			default:
+				last = gen.Frame(rng, 1097, 200, 0)[:50]
+			}
+			for _, h := range []int{0, 1} {
+				id++
+				w.Emit(appCase{ID: id, Mode: "c11", In: tr.Ints(gen.Cat(head, last)), Hold: h, Chunk: 0, Seed: rng.Int63(), Cls: "c11-last"})
+			}
+		}
 		for i := 0; i < n; i++ {
 			var in []byte
 			switch i % 5 {
